@@ -15,6 +15,7 @@ import (
 	"regexp"
 	"sort"
 	"strings"
+	"verifharness/ut"
 
 	"github.com/cockroachdb/errors"
 	"github.com/cockroachdb/errors/errbase"
@@ -1112,41 +1113,80 @@ func init() {
 		}
 	}
 	// hidden errors stay visible in %+v and contribute safe details
+	// visibility: whatever is hidden behind a barrier, attached as secondary error, or passed as an
+	// error argument to a formatting constructor stays visible in the verbose rendering: the hints
+	// and details of the hidden error (which only its own %+v shows) occur in %+v of the whole error
 	oracleTable["C07vis"] = func(o *octx) {
 		if o.e == nil {
 			return
 		}
-		var walk func(e error)
-		walk = func(e error) {
-			if e == nil {
+		pv := fmt.Sprintf("%+v", errors.Formattable(o.e))
+		var hidden []*R
+		var walk func(r *R)
+		walk = func(r *R) {
+			if r == nil {
 				return
 			}
-			// Handled keeps the text
-			if h, ok := hiddenOf(e); ok && h != nil {
-				o.evals++
-				v := fmt.Sprintf("%+v", errors.Formattable(e))
-				hv := fmt.Sprintf("%+v", errors.Formattable(h))
-				first := hv
-				if i := strings.IndexByte(hv, '\n'); i >= 0 {
-					first = hv[:i]
+			if _, isNil := specText(r); isNil {
+				return
+			}
+			switch r.Op {
+			case "handled", "handledmsg", "handledmsgf", "handledindomain", "handledindomainmsg", "handleassert":
+				hidden = append(hidden, r.Kids[0])
+			case "secondary", "combine":
+				if _, n := specText(r.Kids[0]); !n {
+					hidden = append(hidden, r.Kids[1])
 				}
-				if first != "" && !strings.Contains(v, first) {
-					o.fail("the error hidden behind a barrier / secondary is not shown in %+v", "", fmt.Sprintf("hidden first line %q not in %q", first, v))
+			case "newf", "assertf", "wrapf":
+				for _, p := range r.Fmt {
+					if p.Kind == "err" && p.R != nil {
+						hidden = append(hidden, p.R)
+					}
+				}
+			}
+			for _, k := range r.Kids {
+				walk(k)
+			}
+			for _, p := range r.Fmt {
+				walk(p.R)
+			}
+		}
+		walk(o.c.R)
+		for _, h := range hidden {
+			if _, isNil := specText(h); isNil {
+				continue
+			}
+			// the texts given to WithHint / WithDetail inside the hidden error: only its own %+v shows them
+			var marks []string
+			var collect func(x *R)
+			collect = func(x *R) {
+				if x == nil {
+					return
+				}
+				if _, n := specText(x); n {
+					return
+				}
+				if x.Op == "hint" || x.Op == "detail" {
+					marks = append(marks, x.S[0])
+				}
+				for _, k := range x.Kids {
+					collect(k)
+				}
+			}
+			collect(h)
+			for _, m := range marks {
+				if m == "" || strings.ContainsAny(m, "\n") || strings.TrimSpace(m) != m {
+					continue
+				}
+				o.evals++
+				if !strings.Contains(pv, m) {
+					o.fail("a hint / detail of an error that is hidden (barrier), attached (secondary) or passed as argument to a formatting constructor is not shown in %+v of the whole error",
+						"", fmt.Sprintf("%q of %s", m, h.Sx().String()))
 					return
 				}
 			}
-			walk(errors.UnwrapOnce(e))
-			for _, c := range errbase.UnwrapMulti(e) {
-				walk(c)
-			}
 		}
-		walk(o.e)
 	}
-}
-
-// hiddenOf returns the hidden payload of a barrier / secondary layer through its safe details API
-func hiddenOf(e error) (error, bool) {
-	return nil, false
 }
 
 func init() {
@@ -1214,6 +1254,13 @@ func init() {
 
 func init() {
 	oracleTable["C08"] = func(o *octx) {
+		if strings.HasSuffix(o.c.ID, "-0") || strings.HasSuffix(o.c.ID, "-1") {
+			if why, detail := mcauseShapes(false); why != "" {
+				o.evals++
+				o.fail(why, "", detail)
+				return
+			}
+		}
 		// total: any panic is caught by runOracles and reported
 		o.evals++
 		if !errors.Is(o.e, o.e) {
@@ -1968,6 +2015,14 @@ func stdAs(e error, name string) Sx {
 
 func init() {
 	oracleTable["C14"] = func(o *octx) {
+		if strings.HasSuffix(o.c.ID, "-0") || strings.HasSuffix(o.c.ID, "-1") {
+			// once per run: a type outside the recipe language (both Cause() and Unwrap() []error)
+			if why, detail := mcauseShapes(true); why != "" {
+				o.evals++
+				o.fail(why, "", detail)
+				return
+			}
+		}
 		if o.e == nil {
 			return
 		}
@@ -2435,4 +2490,70 @@ func sanitizeTruncatedMarkers(r *R) (*R, bool) {
 	}
 	walk(c)
 	return c, had
+}
+
+// mcauseShapes: trees around *ut.MCause, a multi-cause error that also has Cause(). std = compare with the
+// standard library (C14), otherwise the algebra of Is (C08): a match in ANY member is a match of the whole.
+func mcauseShapes(std bool) (string, string) {
+	a, b, c := goerr.New("member a"), errors.New("member b"), &ut.Plain{Msg: "member c"}
+	vb := ut.Val{Msg: "v", Tag: 3}
+	for si, mk := range []func() error{
+		func() error { return &ut.MCause{Msg: "multi", Errs: []error{a, b}} },
+		func() error { return &ut.MCause{Msg: "multi", Errs: []error{errors.Wrap(a, "w"), c, vb}} },
+		func() error {
+			return errors.Wrap(&ut.MCause{Msg: "multi", Errs: []error{a, errors.WithHint(b, "h")}}, "outer")
+		},
+		func() error { return errors.Join(&ut.MCause{Msg: "multi", Errs: []error{a, c}}, goerr.New("other")) },
+		func() error {
+			return &ut.MCause{Msg: "multi", Errs: []error{a, &ut.MCause{Msg: "inner", Errs: []error{b, c}}}}
+		},
+	} {
+		e := mk()
+		for ri, r := range []error{a, b, c, vb, goerr.New("member a"), errors.New("member b")} {
+			lib, st := errors.Is(e, r), goerr.Is(e, r)
+			if std && st && !lib {
+				return fmt.Sprintf("the standard errors.Is holds but the library's Is does not, on a multi-cause error that also has Cause() (shape %d, probe %d)", si, ri), fmt.Sprintf("%T %q", r, r)
+			}
+			if !std {
+				// the members, taken from the Go value itself (not through the library's traversal)
+				any := false
+				var members func(x error)
+				members = func(x error) {
+					if x == nil {
+						return
+					}
+					if m, ok := x.(interface{ Unwrap() []error }); ok {
+						for _, br := range m.Unwrap() {
+							if br != nil && errors.Is(br, r) {
+								any = true
+							}
+							members(br)
+						}
+					}
+					if u, ok := x.(interface{ Unwrap() error }); ok {
+						members(u.Unwrap())
+					}
+				}
+				members(e)
+				if any && !lib {
+					return fmt.Sprintf("Is holds for a member of a multi-cause error (one that also has Cause()) but not for the whole (shape %d, probe %d)", si, ri), fmt.Sprintf("%T %q", r, r)
+				}
+				if got, want := errors.IsAny(e, goerr.New("nope"), r), lib; got != want {
+					return fmt.Sprintf("IsAny differs from Is on a multi-cause error that also has Cause() (shape %d, probe %d)", si, ri), ""
+				}
+			}
+		}
+		if std {
+			var pc *ut.Plain
+			var pl *ut.Plain
+			if s, l := goerr.As(e, &pc), errors.As(e, &pl); s && (!l || pc != pl) {
+				return fmt.Sprintf("the standard errors.As finds *ut.Plain but the library's As does not find the same, on a multi-cause error that also has Cause() (shape %d)", si), ""
+			}
+			var vs, vl ut.Val
+			if s, l := goerr.As(e, &vs), errors.As(e, &vl); s && (!l || vs != vl) {
+				return fmt.Sprintf("the standard errors.As finds ut.Val but the library's As does not, on a multi-cause error that also has Cause() (shape %d)", si), ""
+			}
+		}
+	}
+	return "", ""
 }
